@@ -15,9 +15,10 @@ CONSTANTS
     AdoptNewFs = TRUE
     RestoreOnInit = TRUE
     UnknownUnmountOK_G = TRUE
+    OverwriteRecord = TRUE
 INIT Init
 NEXT Next
 VIEW core
-INVARIANTS RecordEqualsServing NoSecondMount MapMatchesLive NoPanic TypeOK
+INVARIANTS RecordedLabelsServed RecordEqualsServing NoSecondMount MapMatchesLive NoPanic TypeOK
 PROPERTIES NoRemountCall ServedByCreator NewMountsUseNewConfig RestartRemountsRecordedWithLabels UnknownUnmountOK BeforeInitFails NoFsMountFails
 CHECK_DEADLOCK FALSE
